@@ -6,7 +6,7 @@
 -/
 import Mathlib.Tactic.Ring
 import GocoinV.Proofs.C06Climb
-import GocoinV.Proofs.C06Farthest
+import GocoinV.Proofs.C06FarthestS
 import GocoinV.Proofs.C06MorePow
 import GocoinV.Proofs.C06Delete
 import GocoinV.Proofs.C06Ext
@@ -39,15 +39,53 @@ theorem W_same {c c' : Chain} (hr : c'.root = c.root) (hg : ∀ x, getNode c' x 
     W c' n = W c n := by
   unfold W workOf; rw [cumWorkN_same hr hg]
 
-/-- the tip is a maximum-work node (rational form of `MaxWork`) -/
-def MaxW (c : Chain) : Prop := ∃ t, getNode c c.tip = some t ∧ ∀ x n, getNode c x = some n → W c n ≤ W c t
+/-- the tip is a maximum-work node among the nodes that have their data (rational form of `MaxWork`) -/
+def MaxW (c : Chain) : Prop :=
+  ∃ t, getNode c c.tip = some t ∧ ∀ x n, getNode c x = some n → HasData c x n → W c n ≤ W c t
 
 theorem MaxW_iff {U : List Block} {c : Chain} (w : TreeWF U c) (hU : BlockTree c.root U) : MaxWork c ↔ MaxW c := by
   constructor
   · rintro ⟨t, ht, h⟩
-    exact ⟨t, ht, fun x n hn => (workOf_not_gt_iff w hU hn ht).mp (h x n hn)⟩
+    exact ⟨t, ht, fun x n hn hd => (workOf_not_gt_iff w hU hn ht).mp (h x n hn hd)⟩
   · rintro ⟨t, ht, h⟩
-    exact ⟨t, ht, fun x n hn => (workOf_not_gt_iff w hU hn ht).mpr (h x n hn)⟩
+    exact ⟨t, ht, fun x n hn hd => (workOf_not_gt_iff w hU hn ht).mpr (h x n hn hd)⟩
+
+/-- every node of `c'` is a node of `c` with the same transaction count: the reorganisation machinery creates no node and
+    neither gives nor takes block data -/
+def NodesSub (c c' : Chain) : Prop :=
+  ∀ x n', getNode c' x = some n' → ∃ n, getNode c x = some n ∧ n'.txCount = n.txCount
+
+theorem NodesSub.of_getNode {c c' : Chain} (hg : ∀ x, getNode c' x = getNode c x) : NodesSub c c' :=
+  fun x n' h => ⟨n', by rw [← hg]; exact h, rfl⟩
+
+theorem NodesSub.trans {a b c : Chain} (h1 : NodesSub a b) (h2 : NodesSub b c) : NodesSub a c := by
+  intro x n' h
+  obtain ⟨n, g1, g2⟩ := h2 x n' h
+  obtain ⟨m, g3, g4⟩ := h1 x n g1
+  exact ⟨m, g3, g2.trans g4⟩
+
+/-- the nodes on a branch have their data -/
+theorem Linked_has_data {U : List Block} {c : Chain} (w : TreeWF U c) {p : List PE} (h : Linked c p) :
+    ∀ e ∈ p, ∀ n, getNode c e.id = some n → n.txCount ≠ 0 := by
+  induction p with
+  | nil => intro e he; cases he
+  | cons a rest ih =>
+    intro e he n hn
+    rcases List.mem_cons.mp he with rfl | h2
+    · obtain ⟨_, ⟨blk, hb, _⟩, _⟩ := h
+      exact w.stored_has_data hn hb
+    · exact ih h.2.2 e h2 n hn
+
+/-- the tip of a state satisfying `PathOK` has its data (or is the root) -/
+theorem tip_has_data {U : List Block} {c : Chain} (w : TreeWF U c) {fl : Nat} {path : List PE} (hp : PathOK c fl path)
+    {t : Node} (ht : getNode c c.tip = some t) : HasData c c.tip t := by
+  cases path with
+  | nil => left; rw [hp.tip]; rfl
+  | cons e rest =>
+    right
+    have : c.tip = e.id := hp.tip
+    rw [this] at ht
+    exact Linked_has_data w hp.linked e List.mem_cons_self t ht
 
 /-- every block of a branch is a non-root node no higher than the branch is long -/
 theorem Linked_mem_height {U : List Block} {c : Chain} (w : TreeWF U c) {p : List PE} (h : Linked c p) :
@@ -79,20 +117,22 @@ theorem parseTill_fail (f : Nat) (c : Chain) (e nx : Nat) (last en nxt : Node) (
   simp only [h1, Bool.false_eq_true, if_false, node!, hlast, hen, hnxt, bind, Except.bind, pure, Except.pure, hpath, h2, hblk, herr]
 
 theorem afterFail_eq (f : Nat) (c : Chain) (r : Node) (hr : getNode c c.root = some r) :
-    afterFail (f + 1) c = moveTo f c (farthest c (c.nodes.length + 1) r).1 := by
+    afterFail (f + 1) c = moveTo f c (farthestS c (c.nodes.length + 1) r).1 := by
   rw [afterFail]
   simp only [node!, hr, bind, Except.bind, pure, Except.pure]
 
 -- ------------------------------------------------------------------------------------------ the three specifications
 
-/-- ParseTillBlock(e) from a state satisfying the invariants, `e` a descendant-or-self of the tip, with enough fuel:
-    no panic; invariants kept; ends on `e` with the tree untouched, or — after a failure — on a maximum-work node -/
+/-- ParseTillBlock(e) from a state satisfying the invariants, `e` a descendant-or-self of the tip THAT HAS ITS DATA, with
+    enough fuel: no panic; invariants kept; ends on `e` with the tree untouched, or — after a failure — on a maximum-work
+    node (among those with data); no node is created and no node's transaction count changes -/
 def PSpec (U : List Block) (f : Nat) : Prop :=
   ∀ (c : Chain) (e : Nat) (en : Node) (path : List PE),
-    TreeWF U c → PathOKH c 0 path → Ext c path → BlockTree c.root U → getNode c e = some en → Desc c c.tip e →
+    TreeWF U c → PathOKH c 0 path → Ext c path → BlockTree c.root U → getNode c e = some en → HasData c e en →
+    Desc c c.tip e →
     f ≥ (en.height - path.length) + 1 + c.nodes.length * (c.nodes.length + 4) →
     ∃ c' path', parseTill f c e = .ok c' ∧ TreeWF U c' ∧ PathOKH c' 0 path' ∧ c'.root = c.root ∧
-      ((c'.tip = e ∧ c'.nodes = c.nodes) ∨ MaxW c') ∧ Ext c' path' ∧ Lost U c.root c c'
+      ((c'.tip = e ∧ c'.nodes = c.nodes) ∨ MaxW c') ∧ Ext c' path' ∧ Lost U c.root c c' ∧ NodesSub c c'
 
 /-- the fall-back after a failure (FindFarthestNode from the root + MoveToBlock) -/
 def ASpec (U : List Block) (f : Nat) : Prop :=
@@ -100,15 +140,15 @@ def ASpec (U : List Block) (f : Nat) : Prop :=
     TreeWF U c → PathOKH c 0 path → Ext c path → BlockTree c.root U →
     f ≥ c.nodes.length * (c.nodes.length + 4) + c.nodes.length + 2 →
     ∃ c' path', afterFail f c = .ok c' ∧ TreeWF U c' ∧ PathOKH c' 0 path' ∧ c'.root = c.root ∧ MaxW c' ∧
-      Ext c' path' ∧ Lost U c.root c c'
+      Ext c' path' ∧ Lost U c.root c c' ∧ NodesSub c c'
 
-/-- MoveToBlock(dst) for any node `dst` of the tree -/
+/-- MoveToBlock(dst) for any node `dst` of the tree that has its data -/
 def MSpec (U : List Block) (f : Nat) : Prop :=
   ∀ (c : Chain) (dst : Nat) (d : Node) (path : List PE),
-    TreeWF U c → PathOKH c 0 path → Ext c path → BlockTree c.root U → getNode c dst = some d →
+    TreeWF U c → PathOKH c 0 path → Ext c path → BlockTree c.root U → getNode c dst = some d → HasData c dst d →
     f ≥ c.nodes.length * (c.nodes.length + 4) + c.nodes.length + 1 →
     ∃ c' path', moveTo f c dst = .ok c' ∧ TreeWF U c' ∧ PathOKH c' 0 path' ∧ c'.root = c.root ∧
-      ((c'.tip = dst ∧ c'.nodes = c.nodes) ∨ MaxW c') ∧ Ext c' path' ∧ Lost U c.root c c'
+      ((c'.tip = dst ∧ c'.nodes = c.nodes) ∨ MaxW c') ∧ Ext c' path' ∧ Lost U c.root c c' ∧ NodesSub c c'
 
 theorem fuel_ineq (a b : Nat) (h : a < b) : a * (a + 4) + a + 2 ≤ b * (b + 4) := by
   have h1 : (a + 1) * (a + 5) ≤ b * (b + 4) := Nat.mul_le_mul h (by omega)
@@ -127,14 +167,14 @@ theorem parseStep_facts (c : Chain) (nx : Nat) (nxt : Node) (blk : Stored) (ch :
     rfl⟩
 
 theorem PSpec_step {U : List Block} (f : Nat) (ihP : PSpec U f) (ihA : ASpec U f) : PSpec U (f + 1) := by
-  intro c e en path w hp hx hU he hd hf
+  intro c e en path w hp hx hU he hed hd hf
   by_cases htip : c.tip = e
-  · exact ⟨c, path, parseTill_done f c e htip, w, hp, rfl, Or.inl ⟨htip, rfl⟩, hx, Lost.of_getNode (fun _ => rfl)⟩
+  · exact ⟨c, path, parseTill_done f c e htip, w, hp, rfl, Or.inl ⟨htip, rfl⟩, hx, Lost.of_getNode (fun _ => rfl),
+      NodesSub.of_getNode (fun _ => rfl)⟩
   obtain ⟨hpo, t, ht, hth⟩ := hp
   obtain ⟨nx, nxt, hfp, hnxt, hpar, hnxr, hdx⟩ := findPathTo_spec w ht he hd htip
-  obtain ⟨b, hbU, _, _, _, htc, s, hs, hst⟩ := w.blk nx nxt hnxt hnxr
-  have htx : nxt.txCount ≠ 0 := by
-    rw [htc]; intro h0; exact hU.txs b hbU (List.length_eq_zero_iff.mp h0)
+  have htx : nxt.txCount ≠ 0 := (Desc.has_data w hdx en he hed nxt hnxt).resolve_left hnxr
+  obtain ⟨b, hbU, _, _, _, htc, s, hs, hst⟩ := w.blkData hnxt hnxr htx
   obtain ⟨pp, hpp, hph, _⟩ := w.par nx nxt hnxt hnxr
   rw [hpar, ht] at hpp; cases hpp
   have hh : nxt.height = path.length + 1 := by omega
@@ -148,7 +188,7 @@ theorem PSpec_step {U : List Block} (f : Nat) (ihP : PSpec U f) (ihA : ASpec U f
     obtain ⟨u, hru, heq⟩ := hpo.utxo
     have hfresh : ∀ t ∈ s.txs.map (·.txid), c.utxo.get t = none := fun t ht => by
       rw [heq t]; exact hfr u hru t ht
-    obtain ⟨bp, hbl, _, hblen⟩ := branch_exists w en.height e en he rfl
+    obtain ⟨bp, hbl, _, hblen⟩ := branch_exists w en.height e en he hed rfl
     have hdep : en.height ≤ UnwindBufLen := by rw [← hblen]; exact hU.depth _ (Linked_UChain w hbl)
     have hdec : decide (nxt.height + UnwindBufLen ≥ en.height) = true := by
       rw [decide_eq_true_iff]; omega
@@ -169,17 +209,17 @@ theorem PSpec_step {U : List Block} (f : Nat) (ihP : PSpec U f) (ihA : ASpec U f
     have hp2 : PathOKH (parseStep c nx nxt s ch true) 0 (⟨nx, s.txs⟩ :: path) :=
       ⟨hpath2, nxt, by rw [ht2, hg2]; exact hnxt, by simp only [List.length_cons]; exact hh⟩
     have hx2 : Ext (parseStep c nx nxt s ch true) (⟨nx, s.txs⟩ :: path) := hx.connect nx s _ _ ch hs hct hst2
-    obtain ⟨c', path', h1, h2, h3, h4, h5, h6, h7⟩ := ihP (parseStep c nx nxt s ch true) e en _ w2 hp2 hx2 (by rw [hr2]; exact hU)
-      (by rw [hg2]; exact he) (by rw [ht2]; exact Desc_same hr2 hg2 hdx)
+    obtain ⟨c', path', h1, h2, h3, h4, h5, h6, h7, h8⟩ := ihP (parseStep c nx nxt s ch true) e en _ w2 hp2 hx2 (by rw [hr2]; exact hU)
+      (by rw [hg2]; exact he) (by unfold HasData at hed ⊢; rw [hr2]; exact hed) (by rw [ht2]; exact Desc_same hr2 hg2 hdx)
       (by rw [hn2]; simp only [List.length_cons]; omega)
     refine ⟨c', path', by rw [hstep]; exact h1, h2, h3, h4.trans hr2, ?_, h6,
-      (Lost.of_getNode hg2).trans (by rw [hr2] at h7; exact h7)⟩
+      (Lost.of_getNode hg2).trans (by rw [hr2] at h7; exact h7), (NodesSub.of_getNode hg2).trans h8⟩
     rcases h5 with ⟨a, b⟩ | h5
     · exact Or.inl ⟨a, b.trans hn2⟩
     · exact Or.inr h5
   | error err =>
     have hfail := parseTill_fail f c e nx t en nxt s err htip ht he hfp hnxt htx hs hct
-    obtain ⟨w2, hlen, keep, _, skeep⟩ := deleteBranch_spec w hnxt hnxr
+    obtain ⟨w2, hlen, keep, bk, skeep⟩ := deleteBranch_spec w hnxt hnxr
     have hf2 := deleteBranch_fields c nx
     have alive : ∀ x n, getNode c x = some n → n.height ≤ path.length → ¬ Desc c nx x := by
       intro x n hn hle hdd
@@ -204,31 +244,35 @@ theorem PSpec_step {U : List Block} (f : Nat) (ihP : PSpec U f) (ihA : ASpec U f
       exact alive _ _ hm hmh)
     have hlost : Lost U c.root c (deleteBranch c nx) :=
       Lost.deleteBranch w hpo hnxt hnxr hpar s hs err (by rw [← hh]; exact hct)
-    obtain ⟨c', path', h1, h2, h3, h4, h5, h6, h7⟩ := ihA (deleteBranch c nx) path w2 ⟨hpo2, htip2⟩ hx2
+    obtain ⟨c', path', h1, h2, h3, h4, h5, h6, h7, h8⟩ := ihA (deleteBranch c nx) path w2 ⟨hpo2, htip2⟩ hx2
       (by rw [hf2.2.2.2.2]; exact hU) (by omega)
+    have hsub : NodesSub c (deleteBranch c nx) := fun x n' h => by
+      obtain ⟨n, g1, _, _, _, g5⟩ := bk x n' h
+      exact ⟨n, g1, g5⟩
     exact ⟨c', path', by rw [hfail]; exact h1, h2, h3, h4.trans hf2.2.2.2.2, Or.inr h5, h6,
-      hlost.trans (by rw [hf2.2.2.2.2] at h7; exact h7)⟩
+      hlost.trans (by rw [hf2.2.2.2.2] at h7; exact h7), hsub.trans h8⟩
 
 theorem ASpec_step {U : List Block} (f : Nat) (ihM : MSpec U f) : ASpec U (f + 1) := by
   intro c path w hp hx hU hf
   obtain ⟨r, hr, _, hrb⟩ := w.root
-  obtain ⟨nL, hL, hmax⟩ := farthest_spec w hU hr hrb
-  obtain ⟨c', path', h1, h2, h3, h4, h5, h6, h7⟩ := ihM c _ nL path w hp hx hU hL (by omega)
-  refine ⟨c', path', by rw [afterFail_eq f c r hr]; exact h1, h2, h3, h4, ?_, h6, h7⟩
+  obtain ⟨nL, hL, hLd, hmax⟩ := farthestS_spec w hU hr hrb
+  obtain ⟨c', path', h1, h2, h3, h4, h5, h6, h7, h8⟩ := ihM c _ nL path w hp hx hU hL hLd (by omega)
+  refine ⟨c', path', by rw [afterFail_eq f c r hr]; exact h1, h2, h3, h4, ?_, h6, h7, h8⟩
   rcases h5 with ⟨a, b⟩ | h5
   · have hg : ∀ x, getNode c' x = getNode c x := fun x => getNode_nodes b x
-    refine ⟨nL, by rw [a, hg]; exact hL, fun x n hn => ?_⟩
+    refine ⟨nL, by rw [a, hg]; exact hL, fun x n hn hd => ?_⟩
     rw [W_same h4 hg, W_same h4 hg]
-    exact hmax x n (by rw [← hg]; exact hn)
+    exact hmax x n (by rw [← hg]; exact hn) (by unfold HasData at hd ⊢; rw [← h4]; exact hd)
   · exact h5
 
 theorem MSpec_step {U : List Block} (f : Nat) (ihP : PSpec U f) : MSpec U (f + 1) := by
-  intro c dst d path w hp hx hU hd hf
+  intro c dst d path w hp hx hU hd hdd0 hf
   obtain ⟨hpo, lb, hlb, hlbh⟩ := hp
-  obtain ⟨cur, h1, hcur, hdcur, hcurh⟩ := climbChecked_spec w hU lb.height (d.height + 1) dst d hd (by omega)
-  obtain ⟨lb2, h2, hlb2, hdlb2, hlb2h⟩ := climbChecked_spec w hU cur.height (lb.height + 1) c.tip lb hlb (by omega)
+  have hlbd : HasData c c.tip lb := tip_has_data w hpo hlb
+  obtain ⟨cur, h1, hcur, hdcur, hcurh, hcurd⟩ := climbChecked_spec w lb.height (d.height + 1) dst d hd hdd0 (by omega)
+  obtain ⟨lb2, h2, hlb2, hdlb2, hlb2h, hlb2d⟩ := climbChecked_spec w cur.height (lb.height + 1) c.tip lb hlb hlbd (by omega)
   obtain ⟨anc, h3, hanc, hda1, hda2⟩ :=
-    commonAnc_spec w hU (cur.height + 2) lb2.id cur.id lb2 cur hlb2 hcur (by omega) (by omega)
+    commonAnc_spec w (cur.height + 2) lb2.id cur.id lb2 cur hlb2 hcur hlb2d hcurd (by omega) (by omega)
   have hdt : Desc c anc.id c.tip := hda1.trans hdlb2
   have hdd : Desc c anc.id dst := hda2.trans hdcur
   obtain ⟨pre, post, hpp, hhead, hne⟩ := path_split path hpo.linked (by rw [← hpo.tip]; exact hdt)
@@ -241,10 +285,11 @@ theorem MSpec_step {U : List Block} (f : Nat) (ihP : PSpec U f) : MSpec U (f + 1
   have hp1' : PathOKH c1 0 post := ⟨hp1, t1, by rw [hp1.tip]; exact ht1, ht1h⟩
   have hdh := height_lt_length w hd
   have hx1 : Ext c1 post := (hx.of_store_eq hs1).suffix
-  obtain ⟨c', path', g1, g2, g3, g4, g5, g6, g7⟩ := ihP c1 dst d post w1 hp1' hx1 (by rw [hr1]; exact hU) (by rw [hg1]; exact hd)
+  obtain ⟨c', path', g1, g2, g3, g4, g5, g6, g7, g8⟩ := ihP c1 dst d post w1 hp1' hx1 (by rw [hr1]; exact hU) (by rw [hg1]; exact hd)
+    (by unfold HasData at hdd0 ⊢; rw [hr1]; exact hdd0)
     (by rw [hp1.tip, headId_congr hr1, hhead]; exact Desc_same hr1 hg1 hdd) (by rw [hn1]; omega)
   refine ⟨c', path', by rw [hmv]; exact g1, g2, g3, g4.trans hr1, ?_, g6,
-    (Lost.of_getNode hg1).trans (by rw [hr1] at g7; exact g7)⟩
+    (Lost.of_getNode hg1).trans (by rw [hr1] at g7; exact g7), (NodesSub.of_getNode hg1).trans g8⟩
   rcases g5 with ⟨a, b⟩ | g5
   · exact Or.inl ⟨a, b.trans hn1⟩
   · exact Or.inr g5
@@ -255,9 +300,9 @@ theorem reorg_specs (U : List Block) : ∀ f, PSpec U f ∧ ASpec U f ∧ MSpec 
   induction f with
   | zero =>
     refine ⟨?_, ?_, ?_⟩
-    · intro c e en path _ _ _ _ _ _ hf; omega
+    · intro c e en path _ _ _ _ _ _ _ hf; omega
     · intro c path _ _ _ _ hf; omega
-    · intro c dst d path _ _ _ _ _ hf; omega
+    · intro c dst d path _ _ _ _ _ _ hf; omega
   | succ f ih =>
     exact ⟨PSpec_step f ih.1 ih.2.1, ASpec_step f ih.2.2, MSpec_step f ih.1⟩
 
